@@ -6,17 +6,30 @@ from core import proto
 from .common import case, guarded, ordinal_instance, strict, rand_perm
 
 ID = "C20"
-RULE = ("exhaustive: all ordered pairs of permutations of {1..n} for n <= 5 (quick: n <= 4) for the three distances, "
-        "all pairs of rankings of different length over <= 3 alternatives; random: pairs of permutations of up to 40 "
-        "arbitrary ids, tuple-of-singleton form, distance_matrix on random soc profiles with multiplicities. "
-        "non-trivial = the two rankings differ (for distance_matrix: >= 2 distinct orders and some multiplicity > 1)")
-EXHAUSTIVE = {"quick": "all pairs of permutations n<=4; all different-length pairs over <=3 alternatives",
-              "thorough": "all pairs of permutations n<=5; all different-length pairs over <=4 alternatives"}
+COVER_FILES = ["properties/distances.py"]
+RULE = ("exhaustive: all ordered pairs of permutations of {1..n} for n <= 5 (quick: n <= 4) for the three distances "
+        "(each case evaluates d(p,q) and d(q,p)), all triples of permutations for n <= 4 (quick: n <= 3) for the "
+        "triangle inequality of kendall_tau_distance, all pairs of rankings of different length over <= 3 "
+        "alternatives; random: pairs and triples of permutations of up to 40 arbitrary ids, tuple-of-singleton "
+        "form, distance_matrix on random soc profiles with multiplicities. Every returned number is compared with "
+        "the extracted model (kt_spec, footrule/sertel numerator and denominator); in addition the clauses the "
+        "property names (symmetry, zero iff identical, range [0,1], triangle, matrix shape / symmetry / zero "
+        "diagonal) are evaluated directly on the implementation's numbers. "
+        "non-trivial = the rankings differ (for distance_matrix: >= 2 distinct orders and some multiplicity > 1)")
+EXHAUSTIVE = {"quick": "all pairs of permutations n<=4; all triples n<=3; all different-length pairs over <=3 alternatives",
+              "thorough": "all pairs of permutations n<=5; all triples n<=4; all different-length pairs over <=4 alternatives"}
+THEOREMS_FOR_OP = {"c20.kt": "kt_spec, kt_zero_iff, kt_sym, kt_length_mismatch",
+                   "c20.footrule": "footrule_num_spec, footrule_sym, footrule_zero_iff, footrule_range, footrule_length_mismatch",
+                   "c20.sertel": "sertel_sym, sertel_zero_iff, sertel_range, sertel_length_mismatch",
+                   "c20.tri": "kt_triangle", "c20.dm": "dm_spec, dm_instance, expand_profile_count"}
 TRUSTED = ["modelled: preflibtools/properties/distances.py (all four functions) and OrdinalInstance.full_profile; "
            "the final floating-point division of spearman_footrule_distance / sertel_distance is compared as "
            "float(impl) == num/den with one IEEE division (numpy float64 semantics trusted)"]
 ASSUMPTIONS = ["rankings are tuples of hashable alternatives compared by ==; ids are non-negative integers"]
 TIMEOUT_S = 30.0
+
+
+PAIR_OPS = ("c20.kt", "c20.footrule", "c20.sertel")
 
 
 def generate(tier, seed):
@@ -27,8 +40,16 @@ def generate(tier, seed):
         perms = list(itertools.permutations(range(1, n + 1)))
         for p in perms:
             for q in perms:
-                for op in ("c20.kt", "c20.footrule", "c20.sertel"):
+                for op in PAIR_OPS:
                     out.append(case(op, [p, q], n=n, exh=1))
+    # all triples (triangle inequality on the implementation's own numbers)
+    tmax = 3 if tier == "quick" else 4
+    for n in range(2, tmax + 1):
+        perms = list(itertools.permutations(range(1, n + 1)))
+        for a in perms:
+            for b in perms:
+                for c in perms:
+                    out.append(case("c20.tri", [a, b, c], n=n, exh=1))
     # different lengths (must be refused)
     lmax = 3 if tier == "quick" else 4
     pool = []
@@ -37,7 +58,7 @@ def generate(tier, seed):
     for p in pool:
         for q in pool:
             if len(p) != len(q):
-                for op in ("c20.kt", "c20.footrule", "c20.sertel"):
+                for op in PAIR_OPS:
                     out.append(case(op, [p, q], mismatch=1))
     # random large
     nrand = 300 if tier == "quick" else 4000
@@ -45,16 +66,28 @@ def generate(tier, seed):
         n = rng.randint(2, 40)
         ids = rng.sample(range(0, 10 ** rng.choice([1, 2, 6, 18]) + 50), n)
         p = rand_perm(rng, ids)
-        q = list(p)
-        # mixture: near (few swaps) and far
-        if rng.random() < 0.5:
-            for _ in range(rng.randint(0, 3)):
-                a, b = rng.randrange(n), rng.randrange(n)
-                q[a], q[b] = q[b], q[a]
-        else:
-            rng.shuffle(q)
-        for op in ("c20.kt", "c20.footrule", "c20.sertel"):
+        q = _perturb(rng, p)
+        for op in PAIR_OPS:
             out.append(case(op, [p, q], n=n, tup=i % 2))
+    # random different lengths with arbitrary ids (one ranking is a prefix / an extension of the other)
+    for i in range(30 if tier == "quick" else 300):
+        n = rng.randint(1, 12)
+        ids = rng.sample(range(0, 1000), n + rng.randint(1, 3))
+        p = rand_perm(rng, ids[:n])
+        q = rand_perm(rng, ids)
+        if i % 2:
+            p, q = q, p
+        for op in PAIR_OPS:
+            out.append(case(op, [p, q], mismatch=1, tup=(i // 2) % 2))
+    # random triples
+    ntri = 300 if tier == "quick" else 4000
+    for i in range(ntri):
+        n = rng.randint(3, 5) if i % 3 else rng.randint(6, 25)
+        ids = rng.sample(range(0, 200), n)
+        a = rand_perm(rng, ids)
+        b = _perturb(rng, a)
+        c = _perturb(rng, b)
+        out.append(case("c20.tri", [a, b, c], n=n, tup=i % 2))
     # distance_matrix
     ndm = 60 if tier == "quick" else 600
     for i in range(ndm):
@@ -67,25 +100,29 @@ def generate(tier, seed):
             if o not in orders:
                 orders.append(o)
         prof = [[o, rng.randint(1, 3)] for o in orders]
-        out.append(case("c20.dm", [i % 3, prof], dm=1))
+        # hist=1: the instance is built through the public append API in two phases with a
+        # distance_matrix / full_profile call in between (history-dependent state must not leak)
+        out.append(case("c20.dm", [i % 3, prof], dm=1, hist=i % 2, hseed=rng.randrange(10 ** 6)))
     return out
 
 
-def _frac(x, n_den):
-    return x
+def _perturb(rng, p):
+    """near (a few swaps, possibly none) or far (shuffle)"""
+    q = list(p)
+    n = len(q)
+    if rng.random() < 0.5:
+        for _ in range(rng.randint(0, 3)):
+            a, b = rng.randrange(n), rng.randrange(n)
+            q[a], q[b] = q[b], q[a]
+    else:
+        rng.shuffle(q)
+    return q
 
 
-def impl(c):
+def _call(op, o1, o2, tup):
+    """one call of the real function -> [0, int] | {"float": x} | [1, code] | {"crash": ...}"""
     from preflibtools.properties import distances as D
-    op, pl = c["op"], c["payload"]
-    if op == "c20.dm":
-        which, prof = pl
-        inst = ordinal_instance([(strict(o), m) for o, m in prof], data_type="soc")
-        fn = [D.kendall_tau_distance, D.spearman_footrule_distance, D.sertel_distance][which]
-        mat = D.distance_matrix(inst, fn)
-        return {"shape": list(mat.shape), "m": [[float(x) for x in row] for row in mat]}
-    o1, o2 = pl
-    if c["tags"].get("tup"):
+    if tup:
         o1, o2 = tuple((a,) for a in o1), tuple((a,) for a in o2)
     else:
         o1, o2 = tuple(o1), tuple(o2)
@@ -95,11 +132,65 @@ def impl(c):
     if r[0] == 0:
         v = r[1]
         if op == "c20.kt":
-            if not (isinstance(v, int) or hasattr(v, "__index__")):
+            if isinstance(v, bool) or not (isinstance(v, int) or hasattr(v, "__index__")):
                 return {"crash": "kendall_tau_distance returned non-integer %r" % (v,)}
             return [0, int(v)]
         return {"float": float(v)}
     return r
+
+
+def impl(c):
+    from preflibtools.properties import distances as D
+    op, pl = c["op"], c["payload"]
+    tup = c["tags"].get("tup")
+    if op == "c20.dm":
+        import numpy as np
+        which, prof = pl
+        fn = [D.kendall_tau_distance, D.spearman_footrule_distance, D.sertel_distance][which]
+        if c["tags"].get("hist"):
+            from preflibtools.instances import OrdinalInstance
+            hr = random.Random(c["tags"].get("hseed", 0))
+            inst = OrdinalInstance()
+            inst.append_order_list([tuple((a,) for a in o) for o, _ in prof])   # fixes the order of instance.orders
+            D.distance_matrix(inst, fn)
+            inst.full_profile()
+            rest = [o for o, mu in prof for _ in range(mu - 1)]
+            hr.shuffle(rest)
+            for j, o in enumerate(rest):
+                if j % 3 == 0:
+                    inst.append_order(tuple(o))
+                elif j % 3 == 1:
+                    inst.append_vote_map({tuple((a,) for a in o): 1})
+                else:
+                    inst.append_order_list([tuple((a,) for a in o)])
+                if j % 2 == 0:
+                    D.distance_matrix(inst, fn)
+        else:
+            inst = ordinal_instance([(strict(o), m) for o, m in prof], data_type="soc")
+        mat = D.distance_matrix(inst, fn)
+        if not isinstance(mat, np.ndarray) or mat.ndim != 2:
+            return {"crash": "distance_matrix did not return a 2-dimensional numpy array: %r" % (type(mat),)}
+        return {"shape": list(mat.shape), "m": [[float(x) for x in row] for row in mat]}
+    if op == "c20.tri":
+        a, b, cc = pl
+        rs = [_call("c20.kt", a, b, tup), _call("c20.kt", b, cc, tup), _call("c20.kt", a, cc, tup)]
+    else:
+        o1, o2 = pl
+        rs = [_call(op, o1, o2, tup), _call(op, o2, o1, tup)]
+    for r in rs:
+        if isinstance(r, dict) and "crash" in r:
+            return r
+    return {"rs": rs}
+
+
+def oracle_requests(c, r):
+    op, pl = c["op"], c["payload"]
+    if op == "c20.dm":
+        return [(op, pl)]
+    if op == "c20.tri":
+        a, b, cc = pl
+        return [("c20.kt", [a, b]), ("c20.kt", [b, cc]), ("c20.kt", [a, cc])]
+    return [(op, pl), (op, [pl[1], pl[0]])]
 
 
 def _same_float(x, num, den):
@@ -108,10 +199,31 @@ def _same_float(x, num, den):
     return x == num / den
 
 
+def _cmp(op, r, m):
+    """one implementation answer against one model answer"""
+    if isinstance(r, dict) and "float" in r:
+        if m[0] != 0:
+            return "implementation returned %r where the model refuses (%r)" % (r["float"], m)
+        num, den = m[1]
+        if not _same_float(r["float"], num, den):
+            return "impl %r != %d/%d" % (r["float"], num, den)
+        return None
+    if r != m:
+        return "impl %r, model %r" % (r, m)
+    return None
+
+
+def _val(r):
+    """numeric value of an implementation answer, None for a refusal"""
+    if isinstance(r, dict):
+        return r["float"]
+    return r[1] if r[0] == 0 else None
+
+
 def judge(c, r, mres):
-    m = mres[0]
     op = c["op"]
     if op == "c20.dm":
+        m = mres[0]
         nv = sum(mu for _, mu in c["payload"][1])
         if r["shape"] != [nv, nv] or len(m) != nv:
             return "distance_matrix shape %r, expected %dx%d" % (r["shape"], nv, nv)
@@ -127,16 +239,42 @@ def judge(c, r, mres):
                     good = _same_float(x, e[1][0], e[1][1])
                 if not good:
                     return "entry (%d,%d): impl %r, model %r" % (i, j, x, e[1])
+        # the clauses of the property, directly on the returned matrix
+        for i in range(nv):
+            if r["m"][i][i] != 0.0:
+                return "distance_matrix diagonal entry (%d,%d) = %r" % (i, i, r["m"][i][i])
+            for j in range(i):
+                if r["m"][i][j] != r["m"][j][i]:
+                    return "distance_matrix not symmetric at (%d,%d)" % (i, j)
         return None
-    if isinstance(r, dict) and "float" in r:
-        if m[0] != 0:
-            return "implementation returned %r where the model refuses (%r)" % (r["float"], m)
-        num, den = m[1]
-        if not _same_float(r["float"], num, den):
-            return "impl %r != %d/%d" % (r["float"], num, den)
+    rs = r["rs"]
+    names = ["d(a,b)", "d(b,c)", "d(a,c)"] if op == "c20.tri" else ["d(p,q)", "d(q,p)"]
+    for nm, ri, mi in zip(names, rs, mres):
+        bad = _cmp("c20.kt" if op == "c20.tri" else op, ri, mi)
+        if bad:
+            return nm + ": " + bad
+    vals = [_val(x) for x in rs]
+    if op == "c20.tri":
+        if None in vals:
+            return "refusal on a triple of rankings of the same set: %r" % (rs,)
+        if vals[2] > vals[0] + vals[1]:
+            return {"kind": "mismatch", "theorem": "kt_triangle",
+                    "reason": "triangle inequality fails: d(a,c)=%r > d(a,b)+d(b,c)=%r+%r" % (vals[2], vals[0], vals[1])}
         return None
-    if r != m:
-        return "impl %r, model %r" % (r, m)
+    p, q = c["payload"]
+    if len(p) != len(q):
+        if vals != [None, None] or rs[0] != [1, 3] or rs[1] != [1, 3]:
+            return "rankings of different length not refused with ValueError: %r" % (rs,)
+        return None
+    if sorted(p) == sorted(q) and len(p) >= 2:
+        if None in vals:
+            return "refusal on rankings of the same set: %r" % (rs,)
+        if vals[0] != vals[1]:
+            return "not symmetric: d(p,q)=%r, d(q,p)=%r" % (vals[0], vals[1])
+        if (vals[0] == 0) != (p == q):
+            return "zero-iff-identical fails: d=%r, p==q is %r" % (vals[0], p == q)
+        if op != "c20.kt" and not (0.0 <= vals[0] <= 1.0):
+            return "value %r outside [0, 1]" % (vals[0],)
     return None
 
 
@@ -144,15 +282,23 @@ def nontrivial(c, r, m):
     if c["op"] == "c20.dm":
         prof = c["payload"][1]
         return len(prof) >= 2 and any(mu > 1 for _, mu in prof)
+    if c["op"] == "c20.tri":
+        a, b, cc = c["payload"]
+        return a != b and b != cc and a != cc
     return c["payload"][0] != c["payload"][1]
 
 
 def stats(c, r, m):
     if c["op"] == "c20.dm":
-        return ["dm voters=%d" % sum(mu for _, mu in c["payload"][1])]
+        return ["dm which=%d voters=%d" % (c["payload"][0], sum(mu for _, mu in c["payload"][1]))]
     n = len(c["payload"][0])
-    res = "refused" if (isinstance(m[0], list) and m[0][0] == 1) else "value"
-    return ["%s n=%s %s" % (c["op"], n if n <= 5 else ">5", res)]
+    size = "n=%s" % (n if n <= 5 else ">5")
+    if c["op"] == "c20.tri":
+        ok_all = all(x[0] == 0 for x in m)
+        tight = ok_all and m[2][1] == m[0][1] + m[1][1]
+        return ["c20.tri %s %s" % (size, "tight" if tight else "strict")]
+    res = "refused" if m[0][0] == 1 else ("zero" if (m[0][1] == 0 or (isinstance(m[0][1], list) and m[0][1][0] == 0)) else "positive")
+    return ["%s %s %s" % (c["op"], size, res)]
 
 
 def describe(c):
@@ -168,8 +314,16 @@ def shrink(c):
             if prof[i][1] > 1:
                 yield dict(c, payload=[which, prof[:i] + [[prof[i][0], prof[i][1] - 1]] + prof[i + 1:]])
         return
-    o1, o2 = c["payload"]
-    if len(o1) == len(o2):
-        for x in o1:
-            if x in o2:
-                yield dict(c, payload=[[a for a in o1 if a != x], [a for a in o2 if a != x]])
+    lists = c["payload"]
+    if len(set(len(o) for o in lists)) == 1:
+        if len(lists[0]) <= 2:      # the property speaks of at least two alternatives
+            return
+        for x in lists[0]:
+            if all(x in o for o in lists):
+                yield dict(c, payload=[[a for a in o if a != x] for o in lists])
+    else:
+        # different lengths: drop an element from every ranking that has it
+        for x in sorted(set(a for o in lists for a in o)):
+            cand = [[a for a in o if a != x] for o in lists]
+            if len(set(len(o) for o in cand)) > 1:
+                yield dict(c, payload=cand)
